@@ -982,3 +982,34 @@ Example ex_announce :
   inbound_announces (run [Enrol (1, 0) pe1 false]) (1, 1) pe1 false = false /\
   inbound_announces (run []) (1, 0) pe1 true = false.
 Proof. repeat split; reflexivity. Qed.
+
+(* --- strict openness ------------------------------------------------------------------------------ *)
+Lemma reported_closed_snoc h e c :
+  reported_closed (h ++ [e]) c = reported_closed h c || match e with ConnClosed c' => conn_eqb c c' | _ => false end.
+Proof. unfold reported_closed. rewrite existsb_app. cbn. rewrite orb_false_r. reflexivity. Qed.
+Lemma w3_prefix a b : w3 (a ++ b) -> w3 a.
+Proof. intros H pre post c pe ->. apply (H pre (post ++ b) c pe). rewrite <- app_assoc. reflexivity. Qed.
+
+Lemma open_not_reported evs c : w3 evs -> open_enrolled evs c = true -> reported_closed evs c = false.
+Proof.
+  induction evs as [|e l IH] using rev_ind; intros Hw; [reflexivity|].
+  rewrite open_enrolled_snoc, reported_closed_snoc. specialize (IH (w3_prefix _ _ Hw)).
+  destruct e as [c' pe cl|c'|s p|s|s|s|p s]; cbn [open_after]; try (rewrite orb_false_r; exact IH).
+  - destruct (conn_eqb c c' && negb cl) eqn:E; [|rewrite orb_false_r; exact IH].
+    intros _. rewrite orb_false_r. apply andb_true_iff in E. destruct E as [E1 E2].
+    apply conn_eqb_eq in E1. subst c'. destruct cl; [discriminate|].
+    apply (Hw l [] c pe). reflexivity.
+  - destruct (conn_eqb c c'); [discriminate|]. rewrite orb_false_r. exact IH.
+Qed.
+
+Lemma truly_open_w3 evs c : w3 evs -> truly_open evs c = open_enrolled evs c.
+Proof.
+  intros Hw. unfold truly_open. destruct (open_enrolled evs c) eqn:E; [|reflexivity].
+  rewrite (open_not_reported evs c Hw E). reflexivity.
+Qed.
+
+(* without that order the registry keeps a peer on a connection already reported closed *)
+Example stale_without_w3 :
+  registered (run [ConnClosed (1, 0); Enrol (1, 0) pe1 false]) 1 = true /\
+  truly_open [ConnClosed (1, 0); Enrol (1, 0) pe1 false] (1, 0) = false.
+Proof. split; reflexivity. Qed.
